@@ -335,6 +335,7 @@ func (m *Sim) Settle() {
 	for {
 		synctest.Wait()
 		m.S.steps.Add(1)
+		progress.Add(1)
 		if m.deferred != nil {
 			panic(m.deferred)
 		}
